@@ -20,6 +20,11 @@ def run(rep, tier, seed):
         toks = conf[2].split()
         bps = 512 if toks[1] == "-" else int(toks[1]); g.cluster = bps if toks[3] == "-" else int(toks[3])
         head = ["dev %d 0" % conf[1], "wlog 0", conf[2], "pages", "wlog 1", "mount 1 0 lossy"]
+        if i % 3 == 1:
+            # the volume is already marked dirty when it is mounted (an earlier session ended without unmount; the library never
+            # clears that bit): flush and drop must reach the storage all the same
+            head = ["dev %d 0" % conf[1], "wlog 0", conf[2], "poke %d %s" % (65 if conf[0].startswith("fat32") else 37, rng.choice(["01", "01", "03", "81"])),
+                    "pages", "wlog 1", "mount 1 0 lossy"]
         nops = 30
         while len(g.lines) < nops:
             # more flush points than the default mix
@@ -71,7 +76,7 @@ def run(rep, tier, seed):
                                   {"script": sc.script_prefix(jd, oi)})
                     break
         if ok:
-            rep.distinct(tuple(jd.script[6:]))
+            rep.distinct(tuple(jd.script[5:]))
     rep.cov["crash_point_checks"] = total_checks
     rep.cov["flush_calls"] = flushes
     rep.cov["traces_validated_against_impl"] = len(judged)
